@@ -788,75 +788,72 @@ Proof.
   split; [exact H1|]. rewrite (F_antisym eps e1 e2 Heps Hne Hlen Hsep), H1. lra.
 Qed.
 
-(* mapping F to u *)
-Lemma u_of_F_values F :
-  (F = 1 -> u_of_F RR KR F = 1) /\ (F = 0 -> u_of_F RR KR F = 0) /\
-  (F = 1 / 2 -> u_of_F RR KR F = 1 / 2).
+(* mapping F to u: the tolerance of the repaired code is a quarter of the
+   squared inverse of the ensemble size *)
+Lemma KR_u_consts :
+  k_u_tol_num KR = 1 / 4 /\ k_u_lo_c KR = 1 / 2 /\ k_u_hi_c KR = 1 / 2 /\
+  k_u_low KR = 0 /\ k_u_high KR = 1 /\ k_u_tie KR = 1 / 2.
 Proof.
-  unfold u_of_F. cbn. unfold DS_U_LO_C_R, DS_U_LO_TOL_R, DS_U_HI_C_R, DS_U_HI_TOL_R,
-    DS_U_LOW_R, DS_U_HIGH_R, DS_U_TIE_R.
+  cbn. unfold DS_U_TOL_NUM_R, DS_U_LO_C_R, DS_U_HI_C_R, DS_U_LOW_R, DS_U_HIGH_R, DS_U_TIE_R.
+  repeat split; lra.
+Qed.
+
+Lemma u_tol_value nc : (1 <= nc)%nat ->
+  u_tol RR KR nc = 1 / (4 * (INR nc * INR nc)) /\ 0 < u_tol RR KR nc <= 1 / 4.
+Proof.
+  intros Hn. unfold u_tol. destruct KR_u_consts as (-> & _). cbn [ndiv nofZ RR].
+  rewrite <- INR_IZR_INZ.
+  assert (H1 : 1 <= INR nc) by (change 1 with (INR 1); apply le_INR; exact Hn).
+  assert (HM : 1 <= INR nc * INR nc) by nra.
+  assert (E : 1 / 4 / INR nc / INR nc = 1 / (4 * (INR nc * INR nc))) by (field; lra).
+  rewrite E. split; [reflexivity|]. split.
+  - apply Rdiv_lt_0_compat; lra.
+  - apply Rmult_le_reg_r with (4 * (INR nc * INR nc)); [lra|].
+    unfold Rdiv at 1. rewrite Rmult_assoc, Rinv_l by lra. lra.
+Qed.
+
+Lemma u_of_F_tol_cases tol F :
+  u_of_F_tol RR KR tol F =
+  (if Rltb F (1 / 2 - tol) then 0 else if Rltb (1 / 2 + tol) F then 1 else 1 / 2).
+Proof.
+  unfold u_of_F_tol. destruct KR_u_consts as (_ & -> & -> & -> & -> & ->). reflexivity.
+Qed.
+
+Lemma u_of_F_values nc F : (1 <= nc)%nat ->
+  (F = 1 -> u_of_F RR KR nc F = 1) /\ (F = 0 -> u_of_F RR KR nc F = 0) /\
+  (F = 1 / 2 -> u_of_F RR KR nc F = 1 / 2).
+Proof.
+  intros Hn. unfold u_of_F. rewrite u_of_F_tol_cases.
+  destruct (u_tol_value nc Hn) as (_ & Ht0 & Ht1). set (t := u_tol RR KR nc) in *.
   repeat split; intros ->.
   - rewrite (proj2 (Rltb_false _ _)) by lra. rewrite (proj2 (Rltb_true _ _)) by lra. reflexivity.
   - rewrite (proj2 (Rltb_true _ _)) by lra. reflexivity.
   - rewrite (proj2 (Rltb_false _ _)) by lra. rewrite (proj2 (Rltb_false _ _)) by lra. reflexivity.
 Qed.
 
-(* for ensembles of up to 7071 members the thresholds 1/2 -+ 1e-8 separate
-   F = 1/2 from every other attainable value k/(2 m^2) *)
-Theorem u_of_F_is_sign eps e1 e2 :
-  0 < eps -> e1 <> [] -> separated eps (e1 ++ e2) ->
-  INR (length e1) * INR (length e1) * (2 * k_u_lo_tol KR) < 1 ->
-  (exists k : Z, 2 * wm_sum e1 e2 = IZR k) ->
-  let F := pairF RR KR eps e1 e2 in
-  u_of_F RR KR F = (if Rltb F (1/2) then 0 else if Rltb (1/2) F then 1 else 1/2).
+(* an attainable value F = k/(2M) (k, M integers, M = m^2 >= 1) is mapped by a
+   tolerance below 1/(2M) to the sign of F - 1/2 *)
+Lemma u_of_F_tol_sign tol M F (k z : Z) :
+  M = IZR z -> 0 < M -> IZR k = 2 * M * F -> 0 <= tol -> tol < 1 / (2 * M) ->
+  u_of_F_tol RR KR tol F = (if Rltb F (1/2) then 0 else if Rltb (1/2) F then 1 else 1/2).
 Proof.
-  intros Heps Hne Hsep Hm (k & Hk) F.
-  assert (EF : F = wm_sum e1 e2 / (INR (length e1) * INR (length e1)))
-    by (apply F_is_midrank; assumption).
-  set (M := INR (length e1) * INR (length e1)) in *.
-  assert (HM : 0 < M).
-  { subst M. assert (0 < INR (length e1)).
-    { apply lt_0_INR. destruct e1; [contradiction|simpl; lia]. } nra. }
-  assert (Htol : k_u_lo_tol KR = 1 / 100000000 /\ k_u_hi_tol KR = 1 / 100000000 /\
-                 k_u_lo_c KR = 1 / 2 /\ k_u_hi_c KR = 1 / 2 /\ k_u_low KR = 0 /\
-                 k_u_high KR = 1 /\ k_u_tie KR = 1 / 2).
-  { cbn. unfold DS_U_LO_C_R, DS_U_LO_TOL_R, DS_U_HI_C_R, DS_U_HI_TOL_R,
-      DS_U_LOW_R, DS_U_HIGH_R, DS_U_TIE_R. repeat split; lra. }
-  destruct Htol as (T1 & T2 & T3 & T4 & T5 & T6 & T7).
-  unfold u_of_F. rewrite T1, T2, T3, T4, T5, T6, T7 in *. cbn [nltb nsub nadd RR].
-  (* 2 M F = k is an integer; 2 M (1/2) = M *)
-  assert (HkF : IZR k = 2 * M * F) by (rewrite EF, <- Hk; field; lra).
+  intros Hz HM HkF Ht0 Ht. rewrite u_of_F_tol_cases.
   destruct (Rtotal_order F (1 / 2)) as [Hlt|[Heq|Hgt]].
-  - (* F < 1/2: then k < M (a half-integer comparison is avoided: k and 2M.. use M integer) *)
-    rewrite (proj2 (Rltb_true F (1 / 2)) Hlt).
-    assert (HMint : exists z : Z, M = IZR z).
-    { exists (Z.of_nat (length e1) * Z.of_nat (length e1))%Z. subst M.
-      rewrite mult_IZR, <- INR_IZR_INZ. reflexivity. }
-    destruct HMint as (z & Hz).
+  - rewrite (proj2 (Rltb_true F (1 / 2)) Hlt).
     assert (Hkz : (k < z)%Z) by (apply lt_IZR; rewrite <- Hz; nra).
     assert (Hk1 : IZR k <= IZR z - 1) by (rewrite <- minus_IZR; apply IZR_le; lia).
     assert (F <= 1 / 2 - 1 / (2 * M)).
     { apply Rmult_le_reg_r with (2 * M); [lra|].
       replace ((1 / 2 - 1 / (2 * M)) * (2 * M)) with (M - 1) by (field; lra). nra. }
-    assert (1 / 100000000 < 1 / (2 * M)).
-    { apply Rmult_lt_reg_r with (2 * M); [lra|].
-      replace (1 / (2 * M) * (2 * M)) with 1 by (field; lra). nra. }
     rewrite (proj2 (Rltb_true _ _)) by lra. reflexivity.
   - rewrite Heq. rewrite (proj2 (Rltb_false (1/2) (1/2))) by lra.
     rewrite (proj2 (Rltb_false _ _)) by lra. rewrite (proj2 (Rltb_false _ _)) by lra. reflexivity.
   - rewrite (proj2 (Rltb_false F (1 / 2))) by lra. rewrite (proj2 (Rltb_true (1 / 2) F) Hgt).
-    assert (HMint : exists z : Z, M = IZR z).
-    { exists (Z.of_nat (length e1) * Z.of_nat (length e1))%Z. subst M.
-      rewrite mult_IZR, <- INR_IZR_INZ. reflexivity. }
-    destruct HMint as (z & Hz).
     assert (Hkz : (z < k)%Z) by (apply lt_IZR; rewrite <- Hz; nra).
     assert (Hk1 : IZR z + 1 <= IZR k) by (rewrite <- plus_IZR; apply IZR_le; lia).
     assert (1 / 2 + 1 / (2 * M) <= F).
     { apply Rmult_le_reg_r with (2 * M); [lra|].
       replace ((1 / 2 + 1 / (2 * M)) * (2 * M)) with (M + 1) by (field; lra). nra. }
-    assert (1 / 100000000 < 1 / (2 * M)).
-    { apply Rmult_lt_reg_r with (2 * M); [lra|].
-      replace (1 / (2 * M) * (2 * M)) with 1 by (field; lra). nra. }
     rewrite (proj2 (Rltb_false _ _)) by lra. rewrite (proj2 (Rltb_true _ _)) by lra. reflexivity.
 Qed.
 
@@ -876,6 +873,55 @@ Proof.
     destruct H as (j & Hj). exists (j + k)%Z. simpl. rewrite plus_IZR. lra.
 Qed.
 
+Lemma F_attainable eps e1 e2 :
+  0 < eps -> e1 <> [] -> separated eps (e1 ++ e2) ->
+  let M := INR (length e1) * INR (length e1) in
+  0 < M /\ (exists z : Z, M = IZR z) /\ exists k : Z, IZR k = 2 * M * pairF RR KR eps e1 e2.
+Proof.
+  intros Heps Hne Hsep M.
+  assert (Hm : 0 < INR (length e1)).
+  { apply lt_0_INR. destruct e1; [contradiction|simpl; lia]. }
+  assert (HM : 0 < M) by (subst M; nra).
+  split; [exact HM|]. split.
+  - exists (Z.of_nat (length e1) * Z.of_nat (length e1))%Z. subst M.
+    rewrite mult_IZR, <- INR_IZR_INZ. reflexivity.
+  - destruct (wm_sum_half_integer e1 e2) as (k & Hk). exists k.
+    rewrite (F_is_midrank eps e1 e2 Heps Hne Hsep). fold M. rewrite <- Hk. field. lra.
+Qed.
+
+(* repaired kernel: for EVERY ensemble size u is the sign of F - 1/2 *)
+Theorem u_of_F_is_sign eps e1 e2 :
+  0 < eps -> e1 <> [] -> separated eps (e1 ++ e2) ->
+  let F := pairF RR KR eps e1 e2 in
+  u_of_F RR KR (length e1) F = (if Rltb F (1/2) then 0 else if Rltb (1/2) F then 1 else 1/2).
+Proof.
+  intros Heps Hne Hsep F.
+  destruct (F_attainable eps e1 e2 Heps Hne Hsep) as (HM & (z & Hz) & (k & Hk)).
+  assert (Hn : (1 <= length e1)%nat) by (destruct e1; [contradiction|simpl; lia]).
+  destruct (u_tol_value (length e1) Hn) as (Et & Ht0 & _).
+  unfold u_of_F. apply (u_of_F_tol_sign _ _ F k z Hz HM Hk); [lra|].
+  rewrite Et. set (M := INR (length e1) * INR (length e1)) in *.
+  apply Rmult_lt_reg_r with (4 * M); [lra|].
+  replace (1 / (4 * M) * (4 * M)) with 1 by (field; lra).
+  replace (1 / (2 * M) * (4 * M)) with 2 by (field; lra). lra.
+Qed.
+
+(* pinned kernel (fixed tolerance 1e-8): correct only while 2e-8 m^2 < 1 *)
+Theorem u_of_F_pinned_is_sign eps e1 e2 :
+  0 < eps -> e1 <> [] -> separated eps (e1 ++ e2) ->
+  INR (length e1) * INR (length e1) * (2 * (1 / 100000000)) < 1 ->
+  let F := pairF RR KR eps e1 e2 in
+  u_of_F_pinned RR KR (1 / 100000000) F =
+  (if Rltb F (1/2) then 0 else if Rltb (1/2) F then 1 else 1/2).
+Proof.
+  intros Heps Hne Hsep Hm F.
+  destruct (F_attainable eps e1 e2 Heps Hne Hsep) as (HM & (z & Hz) & (k & Hk)).
+  unfold u_of_F_pinned. apply (u_of_F_tol_sign _ _ F k z Hz HM Hk); [lra|].
+  set (M := INR (length e1) * INR (length e1)) in *.
+  apply Rmult_lt_reg_r with (2 * M); [lra|].
+  replace (1 / (2 * M) * (2 * M)) with 1 by (field; lra). lra.
+Qed.
+
 (* ================================================================== *)
 (* the rank accumulation of c_ensrank                                  *)
 
@@ -887,17 +933,17 @@ Lemma upd_nth_app_r {A} (pre l : list A) k f :
 Proof. induction pre as [|a pre IH]; simpl; [reflexivity|rewrite IH; reflexivity]. Qed.
 
 (* increments of the ranks caused by the pairs (r1, r2), r2 in rest *)
-Definition uF (eps : R) (r1 r2 : list R) : R := u_of_F RR KR (pairF RR KR eps r1 r2).
+Definition uF (nc : nat) (eps : R) (r1 r2 : list R) : R := u_of_F RR KR nc (pairF RR KR eps r1 r2).
 
-Fixpoint delta (eps : R) (rows : list (list R)) : list R :=
+Fixpoint delta (nc : nat) (eps : R) (rows : list (list R)) : list R :=
   match rows with
   | [] => []
   | r1 :: rest =>
-      rsumR (map (fun r2 => uF eps r1 r2) rest)
-      :: map (fun p => (1 - uF eps r1 (fst p)) + snd p) (combine rest (delta eps rest))
+      rsumR (map (fun r2 => uF nc eps r1 r2) rest)
+      :: map (fun p => (1 - uF nc eps r1 (fst p)) + snd p) (combine rest (delta nc eps rest))
   end.
 
-Lemma delta_length eps rows : length (delta eps rows) = length rows.
+Lemma delta_length nc eps rows : length (delta nc eps rows) = length rows.
 Proof.
   induction rows as [|r rows IH]; simpl; [reflexivity|].
   rewrite map_length, combine_length, IH, Nat.min_id. reflexivity.
@@ -906,21 +952,21 @@ Qed.
 Definition vadd (a b : list R) : list R := map (fun p => fst p + snd p) (combine a b).
 
 (* the block of pairs (i0, i0+1+off+k) for k-th element of rest *)
-Lemma first_block eps (i0 : nat) r1 : forall rest off pre c1 done cur,
+Lemma first_block nc eps (i0 : nat) r1 : forall rest off pre c1 done cur,
   length pre = i0 -> length done = off -> length cur = length rest ->
-  fold_left (rank_step RR KR)
+  fold_left (rank_step RR KR nc)
     (map (fun kr : Z * list R =>
             (Z.of_nat i0, (Z.of_nat i0 + 1 + fst kr)%Z, pairF RR KR eps r1 (snd kr)))
          (zenum (Z.of_nat off) rest))
     (pre ++ c1 :: done ++ cur)
-  = pre ++ (c1 + rsumR (map (fun r2 => uF eps r1 r2) rest))
-        :: done ++ map (fun p => snd p + (1 - uF eps r1 (fst p))) (combine rest cur).
+  = pre ++ (c1 + rsumR (map (fun r2 => uF nc eps r1 r2) rest))
+        :: done ++ map (fun p => snd p + (1 - uF nc eps r1 (fst p))) (combine rest cur).
 Proof.
   induction rest as [|r2 rest IH]; intros off pre c1 done cur Hpre Hdone Hcur.
   - destruct cur; [|discriminate]. simpl. rewrite Rplus_0_r. reflexivity.
   - destruct cur as [|x cur]; [discriminate|]. cbn [zenum map fold_left].
     unfold rank_step at 2. cbn [fst snd].
-    fold (uF eps r1 r2).
+    fold (uF nc eps r1 r2).
     replace (Z.to_nat (Z.of_nat i0)) with (length pre + 0)%nat by lia.
     rewrite upd_nth_app_r. cbn [upd_nth].
     replace (Z.to_nat (Z.of_nat i0 + 1 + Z.of_nat off))
@@ -928,38 +974,38 @@ Proof.
     rewrite upd_nth_app_r. cbn [upd_nth].
     rewrite upd_nth_app_r. cbn [upd_nth nadd nsub n1 RR].
     replace (Z.of_nat off + 1)%Z with (Z.of_nat (S off)) by lia.
-    replace (done ++ (x + (1 - uF eps r1 r2)) :: cur)
-      with ((done ++ [x + (1 - uF eps r1 r2)]) ++ cur) by (rewrite <- app_assoc; reflexivity).
-    rewrite (IH (S off) pre (c1 + uF eps r1 r2) (done ++ [x + (1 - uF eps r1 r2)]) cur Hpre
+    replace (done ++ (x + (1 - uF nc eps r1 r2)) :: cur)
+      with ((done ++ [x + (1 - uF nc eps r1 r2)]) ++ cur) by (rewrite <- app_assoc; reflexivity).
+    rewrite (IH (S off) pre (c1 + uF nc eps r1 r2) (done ++ [x + (1 - uF nc eps r1 r2)]) cur Hpre
                 ltac:(rewrite app_length; simpl; lia) ltac:(simpl in Hcur; lia)).
     cbn [map rsumR combine fst snd]. rewrite <- app_assoc. cbn [app].
     f_equal. f_equal. lra.
 Qed.
 
-Lemma pairs_fold eps : forall rows (i0 : nat) pre cur,
+Lemma pairs_fold nc eps : forall rows (i0 : nat) pre cur,
   length pre = i0 -> length cur = length rows ->
-  fold_left (rank_step RR KR) (pairs_from RR KR eps (Z.of_nat i0) rows) (pre ++ cur)
-  = pre ++ vadd cur (delta eps rows).
+  fold_left (rank_step RR KR nc) (pairs_from RR KR eps (Z.of_nat i0) rows) (pre ++ cur)
+  = pre ++ vadd cur (delta nc eps rows).
 Proof.
   induction rows as [|r1 rest IH]; intros i0 pre cur Hpre Hcur.
   - destruct cur; [|discriminate]. reflexivity.
   - destruct cur as [|c1 cur]; [discriminate|].
     cbn [pairs_from]. rewrite fold_left_app.
-    pose proof (first_block eps i0 r1 rest O pre c1 [] cur Hpre eq_refl ltac:(simpl in Hcur; lia)) as HB.
+    pose proof (first_block nc eps i0 r1 rest O pre c1 [] cur Hpre eq_refl ltac:(simpl in Hcur; lia)) as HB.
     cbn [app] in HB. change (Z.of_nat 0) with 0%Z in HB. rewrite HB.
     replace (Z.of_nat i0 + 1)%Z with (Z.of_nat (S i0)) by lia.
-    replace (pre ++ (c1 + rsumR (map (fun r2 => uF eps r1 r2) rest))
-               :: map (fun p => snd p + (1 - uF eps r1 (fst p))) (combine rest cur))
-      with ((pre ++ [c1 + rsumR (map (fun r2 => uF eps r1 r2) rest)])
-               ++ map (fun p => snd p + (1 - uF eps r1 (fst p))) (combine rest cur))
+    replace (pre ++ (c1 + rsumR (map (fun r2 => uF nc eps r1 r2) rest))
+               :: map (fun p => snd p + (1 - uF nc eps r1 (fst p))) (combine rest cur))
+      with ((pre ++ [c1 + rsumR (map (fun r2 => uF nc eps r1 r2) rest)])
+               ++ map (fun p => snd p + (1 - uF nc eps r1 (fst p))) (combine rest cur))
       by (rewrite <- app_assoc; reflexivity).
     rewrite (IH (S i0)) by
       (rewrite ?app_length, ?map_length, ?combine_length; simpl in *; lia).
     rewrite <- app_assoc. cbn [app]. f_equal. unfold vadd. cbn [delta combine map fst snd]. f_equal.
     (* pointwise: (x + (1-u)) + d = x + ((1-u) + d) *)
     assert (Hl : length cur = length rest) by (simpl in Hcur; lia).
-    pose proof (delta_length eps rest) as Hd.
-    clear -Hl Hd. revert cur Hl. generalize dependent (delta eps rest).
+    pose proof (delta_length nc eps rest) as Hd.
+    clear -Hl Hd. revert cur Hl. generalize dependent (delta nc eps rest).
     induction rest as [|r2 rest IHr]; intros d Hd cur Hl.
     + destruct cur; [reflexivity|discriminate].
     + destruct cur as [|x cur]; [discriminate|]. destruct d as [|y d]; [discriminate|].
@@ -969,14 +1015,17 @@ Qed.
 (* ranks returned by the kernel = 1 + delta *)
 Theorem ensrank_ranks eps sim fs ranks :
   ensrank RR KR eps sim = EnsOk fs ranks ->
-  ranks = map (fun d => 1 + d) (delta eps sim).
+  ranks = map (fun d => 1 + d) (delta (length (hd [] sim)) eps sim).
 Proof.
   unfold ensrank. destruct (nltb RR eps (k_eps_min KR)); [discriminate|].
   destruct (_ || _); [discriminate|]. intros H. injection H as _ <-.
-  pose proof (pairs_fold eps sim O [] (map (fun _ => n1 RR) sim) eq_refl ltac:(apply map_length)) as HF.
+  assert (Enc : match sim with r :: _ => length r | [] => O end = length (hd [] sim))
+    by (destruct sim; reflexivity).
+  rewrite Enc. set (nc := length (hd [] sim)). clearbody nc. clear Enc.
+  pose proof (pairs_fold nc eps sim O [] (map (fun _ => n1 RR) sim) eq_refl ltac:(apply map_length)) as HF.
   cbn [app] in HF. change (Z.of_nat 0) with 0%Z in HF. cbn [n1 RR] in HF. rewrite HF.
-  unfold vadd. pose proof (delta_length eps sim) as Hd.
-  clear HF. revert Hd. generalize (delta eps sim). induction sim as [|r sim IH]; intros d Hd.
+  unfold vadd. pose proof (delta_length nc eps sim) as Hd.
+  clear HF. revert Hd. generalize (delta nc eps sim). induction sim as [|r sim IH]; intros d Hd.
   - destruct d; [reflexivity|discriminate].
   - destruct d as [|y d]; [discriminate|]. cbn [map combine fst snd n1 RR]. f_equal.
     apply IH. simpl in Hd; lia.
@@ -989,14 +1038,15 @@ Lemma combine_map_r_self {A B C} (f : A -> B) (g : A -> C) (l : list A) :
   combine (map f l) (map g l) = map (fun a => (f a, g a)) l.
 Proof. induction l as [|a l IH]; simpl; [reflexivity|rewrite IH; reflexivity]. Qed.
 
-Lemma uF_above eps r1 r2 :
+Lemma uF_above nc eps r1 r2 :
+  (1 <= nc)%nat ->
   0 < eps -> r1 <> [] -> length r2 = length r1 -> separated eps (r1 ++ r2) ->
   (forall a b, In a r1 -> In b r2 -> b < a) ->
-  uF eps r1 r2 = 1 /\ uF eps r2 r1 = 0.
+  uF nc eps r1 r2 = 1 /\ uF nc eps r2 r1 = 0.
 Proof.
-  intros H1 H2 H3 H4 H5. destruct (F_all_above eps r1 r2 H1 H2 H3 H4 H5) as [E1 E0].
-  unfold uF. rewrite E1, E0. destruct (u_of_F_values 1) as (Ha & _ & _).
-  destruct (u_of_F_values 0) as (_ & Hb & _). split; [apply Ha|apply Hb]; reflexivity.
+  intros Hn H1 H2 H3 H4 H5. destruct (F_all_above eps r1 r2 H1 H2 H3 H4 H5) as [E1 E0].
+  unfold uF. rewrite E1, E0. destruct (u_of_F_values nc 1 Hn) as (Ha & _ & _).
+  destruct (u_of_F_values nc 0 Hn) as (_ & Hb & _). split; [apply Ha|apply Hb]; reflexivity.
 Qed.
 
 (* rows (key, ensemble): ensembles have m >= 1 members, any two of them are
@@ -1010,7 +1060,7 @@ Definition ordered_rows (eps : R) (m : nat) (ks : list (R * list R)) : Prop :=
 
 Lemma delta_ordered eps m ks :
   0 < eps -> (1 <= m)%nat -> NoDup (map fst ks) -> ordered_rows eps m ks ->
-  delta eps (map snd ks) =
+  delta m eps (map snd ks) =
   map (fun a => cntR (fun b : R * list R => Rltb (fst b) (fst a)) ks) ks.
 Proof.
   intros Heps Hm. induction ks as [|a rest IH]; intros Hnd (Hlen & Hsep & Hord); [reflexivity|].
@@ -1022,8 +1072,8 @@ Proof.
   { intros c Hc E. pose proof (Hlen c Hc) as L. rewrite E in L. simpl in L. lia. }
   (* u for the pairs (a, b), b in rest *)
   assert (Hu : forall b, In b rest ->
-            uF eps (snd a) (snd b) = ind (Rltb (fst b) (fst a)) /\
-            1 - uF eps (snd a) (snd b) = ind (Rltb (fst a) (fst b))).
+            uF m eps (snd a) (snd b) = ind (Rltb (fst b) (fst a)) /\
+            1 - uF m eps (snd a) (snd b) = ind (Rltb (fst a) (fst b))).
   { intros b Hb.
     assert (Hab : fst a <> fst b).
     { intros E. apply Hnotin. rewrite E. apply in_map; exact Hb. }
@@ -1031,11 +1081,11 @@ Proof.
     assert (Hb' : In b (a :: rest)) by (right; exact Hb).
     assert (Lab : length (snd b) = length (snd a)) by (rewrite (Hlen a Ha'), (Hlen b Hb'); reflexivity).
     destruct (Rtotal_order (fst b) (fst a)) as [Hlt|[Heq|Hgt]]; [|congruence|].
-    - destruct (uF_above eps (snd a) (snd b) Heps (Hne a Ha') Lab (Hsep a b Ha' Hb')
+    - destruct (uF_above m eps (snd a) (snd b) Hm Heps (Hne a Ha') Lab (Hsep a b Ha' Hb')
                   (fun x y Hx Hy => Hord a b Ha' Hb' Hlt x y Hx Hy)) as [E1 _].
       rewrite E1, (proj2 (Rltb_true _ _) Hlt), (proj2 (Rltb_false (fst a) (fst b)) ltac:(lra)).
       unfold ind; split; lra.
-    - destruct (uF_above eps (snd b) (snd a) Heps (Hne b Hb') (eq_sym Lab) (Hsep b a Hb' Ha')
+    - destruct (uF_above m eps (snd b) (snd a) Hm Heps (Hne b Hb') (eq_sym Lab) (Hsep b a Hb' Ha')
                   (fun x y Hx Hy => Hord b a Hb' Ha' Hgt x y Hx Hy)) as [_ E0].
       rewrite E0, (proj2 (Rltb_true _ _) Hgt), (proj2 (Rltb_false (fst b) (fst a)) ltac:(lra)).
       unfold ind; split; lra. }
@@ -1173,7 +1223,8 @@ Proof.
   destruct (ensrank RR KR eps sim) as [code|fs ranks] eqn:Eens.
   - exfalso. unfold ensrank in Eens. rewrite Hmin in Eens. rewrite Esim in Eens. simpl in Eens. discriminate.
   - rewrite (ensrank_ranks eps sim fs ranks Eens).
-    rewrite <- Hsnd at 1.
+    assert (Enc : length (hd [] sim) = m) by (rewrite Esim; simpl; exact Hr).
+    rewrite Enc. rewrite <- Hsnd at 1.
     rewrite (delta_ordered eps m (combine keys sim) Heps ltac:(lia) ltac:(rewrite Hfst; exact Hnd) Hord).
     rewrite map_map.
     transitivity (map (fun x => 1 + cntR (fun y => Rltb y x) keys) (map fst (combine keys sim)));
@@ -1308,4 +1359,83 @@ Proof.
   apply dscore_of_ranks_perfect.
   - subst o. rewrite map_length. exact Hn.
   - apply ranks_of_distinct_not_constant; assumption.
+Qed.
+
+(* ================================================================== *)
+(* the pinned thresholds 0.5 -+ 1e-8 misrank ensembles of 7072 members  *)
+
+Lemma wm_sum_app_l l1 l1' l2 : wm_sum (l1 ++ l1') l2 = wm_sum l1 l2 + wm_sum l1' l2.
+Proof. unfold wm_sum. rewrite map_app, rsumR_app. reflexivity. Qed.
+
+Lemma wm_row_repeat a c d k :
+  rsumR (map (fun b => wm a b) (repeat c k ++ [d])) = INR k * wm a c + wm a d.
+Proof.
+  induction k as [|k IH]; [simpl; lra|].
+  rewrite S_INR. cbn [repeat app map rsumR]. rewrite IH. lra.
+Qed.
+
+Lemma wm_sum_repeat_l a k l2 :
+  wm_sum (repeat a k) l2 = INR k * rsumR (map (fun b => wm a b) l2).
+Proof.
+  unfold wm_sum. induction k as [|k IH]; [simpl; lra|].
+  rewrite S_INR. cbn [repeat map rsumR]. rewrite IH. lra.
+Qed.
+
+(* E1 = k zeros and a 1, E2 = k zeros and a 2 *)
+Definition big_e1 (k : nat) : list R := repeat 0 k ++ [1].
+Definition big_e2 (k : nat) : list R := repeat 0 k ++ [2].
+
+Lemma big_wm_sum k : wm_sum (big_e1 k) (big_e2 k) = INR k * INR k / 2 + INR k.
+Proof.
+  unfold big_e1, big_e2. rewrite wm_sum_app_l, wm_sum_repeat_l. unfold wm_sum at 1.
+  cbn [map rsumR]. rewrite !wm_row_repeat.
+  assert (E00 : wm 0 0 = 1 / 2).
+  { unfold wm. rewrite (proj2 (Rltb_false 0 0)) by lra. rewrite (proj2 (Reqb_true 0 0) eq_refl). reflexivity. }
+  assert (E02 : wm 0 2 = 0).
+  { unfold wm. rewrite (proj2 (Rltb_false 2 0)) by lra.
+    rewrite (proj2 (Reqb_false 0 2)) by (intro; lra). reflexivity. }
+  assert (E10 : wm 1 0 = 1) by (unfold wm; rewrite (proj2 (Rltb_true 0 1)) by lra; reflexivity).
+  assert (E12 : wm 1 2 = 0).
+  { unfold wm. rewrite (proj2 (Rltb_false 2 1)) by lra.
+    rewrite (proj2 (Reqb_false 1 2)) by (intro; lra). reflexivity. }
+  rewrite E00, E02, E10, E12. lra.
+Qed.
+
+Lemma big_separated k : separated (1 / 1000000) (big_e1 k ++ big_e2 k).
+Proof.
+  assert (Hin : forall x, In x (big_e1 k ++ big_e2 k) -> x = 0 \/ x = 1 \/ x = 2).
+  { intros x Hx. unfold big_e1, big_e2 in Hx.
+    repeat (apply in_app_or in Hx; destruct Hx as [Hx|Hx]);
+      try (apply repeat_spec in Hx; auto); simpl in Hx; destruct Hx as [<-|[]]; auto. }
+  intros a b Ha Hb. cbn [k_cmp_tol KR]. unfold DS_CMP_TOL_R.
+  destruct (Hin a Ha) as [-> | [-> | ->]]; destruct (Hin b Hb) as [-> | [-> | ->]];
+    first [left; reflexivity
+          | right; unfold Rabs; match goal with |- context [Rcase_abs ?t] => destruct (Rcase_abs t) end;
+            split; lra].
+Qed.
+
+(* with 7072 members: F = 1/2 - 1/(2 m^2) < 1/2, the repaired kernel gives
+   u = 0 (Weigel-Mason), the pinned one (tolerance 1e-8) gives the tie value 1/2 *)
+Theorem u_of_F_pinned_refuted :
+  let k := Z.to_nat 7071 in
+  let F := pairF RR KR (1 / 1000000) (big_e1 k) (big_e2 k) in
+  length (big_e1 k) = Z.to_nat 7072 /\ F < 1 / 2 /\
+  u_of_F RR KR (length (big_e1 k)) F = 0 /\
+  u_of_F_pinned RR KR (1 / 100000000) F = 1 / 2.
+Proof.
+  intros k F.
+  assert (Hk : INR k = 7071) by (subst k; rewrite INR_IZR_INZ, Z2Nat.id by lia; reflexivity).
+  assert (Hlen : length (big_e1 k) = S k) by (unfold big_e1; rewrite app_length, repeat_length; simpl; lia).
+  assert (Hne : big_e1 k <> []) by (intros E; rewrite E in Hlen; discriminate).
+  assert (HF : F = (INR k * INR k / 2 + INR k) / ((INR k + 1) * (INR k + 1))).
+  { subst F. rewrite (F_is_midrank (1 / 1000000) (big_e1 k) (big_e2 k) ltac:(lra) Hne (big_separated k)), big_wm_sum, Hlen, S_INR.
+    reflexivity. }
+  rewrite Hk in HF.
+  assert (HFv : F = 1 / 2 - 1 / 100026368) by (rewrite HF; field).
+  split; [rewrite Hlen; subst k; lia|]. split; [lra|]. split.
+  - pose proof (u_of_F_is_sign (1 / 1000000) (big_e1 k) (big_e2 k) ltac:(lra) Hne (big_separated k)) as Hs.
+    cbv zeta in Hs. change (pairF RR KR (1 / 1000000) (big_e1 k) (big_e2 k)) with F in Hs. rewrite Hs.
+    rewrite (proj2 (Rltb_true F (1 / 2))) by lra. reflexivity.
+  - unfold u_of_F_pinned. rewrite u_of_F_tol_cases.
+    rewrite (proj2 (Rltb_false _ _)) by lra. rewrite (proj2 (Rltb_false _ _)) by lra. reflexivity.
 Qed.
